@@ -50,13 +50,15 @@ theorem reader_stream (data : Bytes) (bs : Nat) (hbs : 0 < bs) (script : List (N
   have := readAll_spec data bs hbs reqs _ [] (rinv_init data bs script)
   simpa using this
 
-/-- what un-padding a whole stream means: the last `bs` bytes must end in `k` bytes of value `k`,
-    `1 ≤ k ≤ bs`; the result is the stream without them. -/
+/-- what un-padding a whole stream means: the stream must be whole blocks (its length a multiple of
+    `bs`) and its last block must end in `k` bytes of value `k`, `1 ≤ k ≤ bs`; the result is the stream
+    without them.  (`bs = 0` is the degenerate pass-through of the Go code: nothing is cached.) -/
 def unpadStream (bs : Nat) (total : Bytes) : Option Bytes :=
   if total.length < bs then none
   else
     let b := total.drop (total.length - bs)
     if b.length = 0 then some total
+    else if total.length % bs ≠ 0 then none
     else
       let k := (b.getLastD 0).toNat
       if k > bs ∨ k = 0 then none
@@ -71,8 +73,8 @@ theorem writer_stream (bs : Nat) (ws : List Bytes) : writeAll bs ws = unpadStrea
   unfold writeAll Writer.final unpadStream
   generalize ws.foldl Writer.write (newWriter bs) = w at h
   generalize ws.flatten = total at h
-  obtain ⟨hb, hc, hl⟩ := h
-  rw [hb]
+  obtain ⟨hb, hc, hl, hn⟩ := h
+  rw [hb, hn]
   by_cases hlt : total.length < bs
   · have : w.cache.length ≠ bs := by rw [hl]; omega
     simp [this, hlt]
@@ -88,6 +90,9 @@ theorem writer_stream (bs : Nat) (ws : List Bytes) : writeAll bs ws = unpadStrea
       have : w.cache = [] := List.eq_nil_of_length_eq_zero hcl
       simp [this]
     · simp only [h0, if_false]
+      by_cases hm : (w.out ++ w.cache).length % bs = 0
+      case neg => simp only [hm, not_false_eq_true, if_true]
+      simp only [hm, not_true_eq_false, if_false]
       by_cases hk : (w.cache.getLastD 0).toNat > bs ∨ (w.cache.getLastD 0).toNat = 0
       · simp only [hk, if_true]
       · simp only [hk, if_false]
@@ -137,6 +142,13 @@ theorem unpad_padStream (bs : Nat) (h1 : 0 < bs) (h2 : bs ≤ 255) (data : Bytes
   have hb0 : ¬ bs = 0 := by omega
   have hkk : ¬ (k > bs ∨ k = 0) := by omega
   simp only [hb0, hkk, if_false]
+  have hmod : (padStream bs data).length % bs = 0 := by
+    rw [hlen]
+    have hd := Nat.div_add_mod data.length bs
+    have : data.length + k = bs * (data.length / bs + 1) := by
+      rw [Nat.mul_add, Nat.mul_one]; simp only [k]; omega
+    rw [this, Nat.mul_mod_right]
+  simp only [hmod, ne_eq, not_true_eq_false, if_false]
   have hsub : (padStream bs data).length - k = data.length := by omega
   rw [hsub]
   have htake : (padStream bs data).take data.length = data := by simp [padStream]
@@ -153,6 +165,60 @@ theorem unpad_padStream (bs : Nat) (h1 : 0 < bs) (h2 : bs ≤ 255) (data : Bytes
 theorem writer_inverse (bs : Nat) (h1 : 0 < bs) (h2 : bs ≤ 255) (data : Bytes) (ws : List Bytes)
     (h : ws.flatten = padStream bs data) : writeAll bs ws = some data := by
   rw [writer_stream, h, unpad_padStream bs h1 h2 data]
+
+/-- T1 `writer_rejects_misaligned` (the repaired behaviour; false for the code as found, see
+    `old_writer_accepts_misaligned`): for every block size ≥ 1 and EVERY chunking `ws` — whatever the bytes
+    are, in particular when the last `bs` bytes of the stream look like a valid pad — if the total number of
+    bytes written is not a multiple of the block size then `Final` reports an error (and emits nothing
+    more): the final block of such a stream is a partial block and can never be a valid pad. -/
+theorem writer_rejects_misaligned (bs : Nat) (hbs : 0 < bs) (ws : List Bytes)
+    (h : ws.flatten.length % bs ≠ 0) : writeAll bs ws = none := by
+  rw [writer_stream]
+  generalize ws.flatten = total at h
+  unfold unpadStream
+  by_cases hlt : total.length < bs
+  · simp only [hlt, if_true]
+  · have hdl : (total.drop (total.length - bs)).length ≠ 0 := by
+      rw [List.length_drop]; omega
+    simp only [hlt, if_false, hdl, h, ne_eq, not_false_eq_true, if_true]
+
+/-- the same, read the other way: whenever `Final` succeeds, the stream was whole blocks -/
+theorem writer_ok_aligned (bs : Nat) (hbs : 0 < bs) (ws : List Bytes) (d : Bytes)
+    (h : writeAll bs ws = some d) : ws.flatten.length % bs = 0 := by
+  by_cases hm : ws.flatten.length % bs = 0
+  · exact hm
+  · rw [writer_rejects_misaligned bs hbs ws hm] at h; simp at h
+
+/-- the byte counter of the model is the number of bytes written, for every chunking -/
+theorem written_eq_total (bs : Nat) (ws : List Bytes) :
+    (ws.foldl Writer.write (newWriter bs)).written = ws.flatten.length := by
+  have := (winv_all bs ws [] (newWriter bs) (winv_init bs)).cnt
+  simpa using this
+
+/-- cur (code as found, before the repair): `Final` looked only at the sliding window of the last `bs`
+    bytes.  Witness: 17 bytes at block size 16 ending in 0x01 — a stream whose final block is ONE byte —
+    were accepted and 16 bytes emitted, in one write as well as byte-by-byte-ish chunkings; the repaired
+    writer refuses the same input. -/
+theorem old_writer_accepts_misaligned :
+    writeAllOld 16 [List.replicate 16 0xAA ++ [0x01]] = some (List.replicate 16 0xAA) ∧
+    writeAllOld 16 [List.replicate 5 0xAA, [], List.replicate 11 0xAA, [0x01]] = some (List.replicate 16 0xAA) ∧
+    writeAllOld 8 [List.replicate 9 0xAA ++ [0x02, 0x02]] = some (List.replicate 9 0xAA) ∧
+    writeAll 16 [List.replicate 16 0xAA ++ [0x01]] = none ∧
+    writeAll 16 [List.replicate 5 0xAA, [], List.replicate 11 0xAA, [0x01]] = none ∧
+    writeAll 8 [List.replicate 9 0xAA ++ [0x02, 0x02]] = none := by decide
+
+/-- on whole-block streams the repair changes nothing: old and new `Final` agree -/
+theorem final_eq_old_of_aligned (w : Writer) (h : w.written % w.blockSize = 0) : w.final = w.finalOld := by
+  unfold Writer.final Writer.finalOld
+  simp [h]
+
+/-- non-vacuity of `writer_rejects_misaligned`: a 17-byte stream in three writes whose tail is a valid-looking pad -/
+example : writeAll 16 [List.replicate 7 0x41, List.replicate 9 0x41, [0x01]] = none :=
+  writer_rejects_misaligned 16 (by decide) _ (by decide)
+
+/-- … and the aligned neighbours are still accepted: 32 bytes ending in 0x01, 16 bytes of 0x10 -/
+example : writeAll 16 [List.replicate 7 0x41, List.replicate 24 0x41, [0x01]] = some (List.replicate 31 0x41) := by decide
+example : writeAll 16 [List.replicate 16 0x10] = some [] := by decide
 
 /-- invariant: the writer never caches more than one block (so the forwarding loop is bounded) -/
 theorem cache_le_block (bs : Nat) (ws : List Bytes) :
